@@ -120,7 +120,7 @@ def run(ctx):
         for f in r.get("feats") or []:
             feats[f] = feats.get(f, 0) + 1
     ctx.extra["search_programs"] = len(srows)
-    ctx.extra["search_by_source"] = {k: sum(1 for r in srows if r["from"] == k) for k in ("gen", "corpus", "witness")}
+    ctx.extra["search_by_source"] = {k: sum(1 for r in srows if r["from"] == k) for k in ("gen", "corpus", "witness", "regress")}
     ctx.extra["search_modified_by_simplify"] = sum(1 for r in srows if r.get("mod"))
     ctx.extra["search_behaviour_compared"] = len(ran)
     ctx.extra["generator_feature_histogram"] = feats
